@@ -86,9 +86,12 @@ def walker_coverage(ctx: Ctx, I: Interp) -> None:
         v = l.value
         kinds = None
         # kind of the visited object on this path: taken from the isinstance atoms on fn's result
-        lab = [str(lbl) for a, lbl in l.atoms if isinstance(a, tuple) and a[0] == "isinstance"]
-        is_tag = "isinstance Tag" in lab
-        is_jsx = "isinstance JSXTag" in lab
+        # (its kinds have been narrowed by whatever class tests the path took)
+        ctx.require(isinstance(v, SObj), "the walker does not return the visited object")
+        vk = set(v.kinds)
+        ctx.require(vk <= {"TAG"} or vk <= {"JSXTAG"} or not (vk & {"TAG", "JSXTAG"}), "_walk_attrs_and_children: a path does not tell tags / components / other values apart")
+        is_tag = vk <= {"TAG"}
+        is_jsx = vk <= {"JSXTAG"}
         if is_tag:
             seen.add("TAG")
             ok = iters == ["children"] and len(rec_calls) >= 1 and len(stores) >= 1
@@ -160,7 +163,8 @@ def visitor_table(ctx: Ctx, I: Interp) -> None:
     ctx.require(visitor is not None, "visitor not found")
     # ---- the visitor, per kind ------------------------------------------------------------------------
     vfn = visitor.node
-    vp = [a.arg for a in vfn.args.args]
+    vp = [a.arg for a in vfn.args.args][len(visitor.__dict__.get("pre_args") or []):]
+    vp = [a_ for a_ in vp if a_ not in (visitor.__dict__.get("pre_kwargs") or {})]
     ctx.require(len(vp) == 1, "visitor signature changed")
     vname = getattr(vfn, "name", "<lambda>")
     wv = f"{JSX}:JSXTag.tagify.{vname}"
@@ -360,13 +364,23 @@ def serialize_table(ctx: Ctx, I: Interp) -> None:
     ctx.require({"NONE", "TRUE", "INT", "LIST", "DICT", "STR", "TAG"} <= seen, "_serialize_attr table incomplete")
 
 
+def _argmap(params: List[str], args: Any, kwargs: Any) -> Dict[str, Any]:
+    """parameter name -> argument of one call (positional then keyword)."""
+    out: Dict[str, Any] = {}
+    for p_, a_ in zip(params, args or []):
+        out[p_] = a_
+    for k_, a_ in (kwargs or {}).items():
+        out[k_] = a_
+    return out
+
+
 def render_table(ctx: Ctx, I: Interp) -> None:
     """_render_react_js per kind of node, and its two loops (props, children)."""
     prog = ctx.prog
     where = f"{JSX}:_render_react_js"
     fn = prog.function(JSX, "_render_react_js")
-    ps = [a.arg for a in fn.args.args]
-    ctx.require(len(ps) == 3, "_render_react_js signature changed")
+    ps = [a.arg for a in fn.args.args + fn.args.kwonlyargs]
+    ctx.require(len(ps) == 3 and not fn.args.vararg and not fn.args.kwarg, "_render_react_js signature changed")
 
     def mk_for(kinds: Any):
         def mk(run: Any):
@@ -456,16 +470,19 @@ def render_table(ctx: Ctx, I: Interp) -> None:
                 if isinstance(el, SObj) and el.kinds and el.kinds <= META_KINDS and not rr and l.kind in ("fall", "continue"):
                     ctx.ok("C20.js", "a metadata child is skipped (it contributes no JavaScript)")
                     continue
-                ok = len(rr) == 1 and rr[0].value and rr[0].value[0] is el and l.kind in ("fall", "continue")
-                deeper = ok and len(rr[0].value) >= 3 and rr[0].value[2] is eol
+                am = _argmap(ps, rr[0].value, (rr[0].extra or {}).get("kwargs")) if len(rr) == 1 else {}
+                ok = len(rr) == 1 and am.get(ps[0]) is el and l.kind in ("fall", "continue")
+                deeper = ok and am.get(ps[2]) is eol
                 ctx.check(bool(ok and deeper), "C20.js", "each child is rendered once, in order, by a recursive call", where,
                           f"child iteration: {[short(a) for c in rr for a in c.value]} -> {l.kind}",
                           "a child of a tag/component is not rendered exactly once by the recursive call: children are dropped, duplicated or cut short",
                           witness="Foo('a', div('b'), 'c')")
         if not any_rec:
             break
-    if "children" not in found:
-        # the child loop written as a comprehension: [_render_react_js(c, indent + 1, eol) for c in x.children if ...]
+    found_loops = set(found)
+    found_comp: set = set()
+    if found != {"props", "children"}:
+        # the child / prop loop written as a comprehension: [_render_react_js(c, indent + 1, eol) for c in x.children if ...]
         cfg3 = Config()
         cfg3.opaque_all = True
         cfg3.coarse_counts = True
@@ -498,14 +515,33 @@ def render_table(ctx: Ctx, I: Interp) -> None:
                 _scan(v_)
             for m_ in maps:
                 b_ = m_.base
+                d_ = getattr(b_, "iter_descr", None)
+                if "props" not in found_loops and d_ is not None and d_[0] == "items" and isinstance(d_[1], SObj) and d_[1].meta.get("attr_of", (None, None))[0] is x \
+                        and d_[1].meta["attr_of"][1] == "attrs":
+                    # [f'"{k}": {ser(v)}' for k, v in x.attrs.items()]
+                    found_comp.add("props")
+                    val = m_.var.items[1] if isinstance(m_.var, SList) and len(m_.var.items) == 2 else None
+                    ops = [f_ for f_ in (m_.elt.frags if isinstance(m_.elt, SStr) else []) if f_.kind == "OP" and isinstance(f_.b, dict)]
+                    ser = [f_ for f_ in ops if str(f_.a[1]) in ("_serialize_attr", "_serialize_style_attr")]
+                    style = any(str(lbl) == "== 'style'" for _, lbl in l.atoms)
+                    ok = len(ser) == 1 and (ser[0].b.get("args") or [None])[0] is val and val is not None and (str(ser[0].a[1]) == "_serialize_style_attr") == style \
+                        and not m_.cond
+                    ctx.check(bool(ok), "C20.js", f"each prop value is serialised once ({'style' if style else 'other'} prop)", where,
+                              f"prop comprehension ({'style' if style else 'non-style'}): {[str(f_.a[1]) for f_ in ser]} in {short(m_.elt)}",
+                              "a prop is not written exactly once through _serialize_attr (or _serialize_style_attr for style)",
+                              witness="Foo(a=1, style='color:red')")
+                    continue
+                if "children" in found_loops:
+                    continue
                 if not (isinstance(b_, SObj) and b_.meta.get("attr_of", (None, None))[0] is x and b_.meta["attr_of"][1] == "children"):
                     continue
-                found.add("children")
+                found_comp.add("children")
                 c_ = m_.elt.__dict__.get("call") if isinstance(m_.elt, SOpaque) else (m_.elt.meta.get("call") if isinstance(m_.elt, SObj) else None)
                 if c_ is None and isinstance(m_.elt, SStr) and len(m_.elt.frags) == 1 and m_.elt.frags[0].kind == "OP" and isinstance(m_.elt.frags[0].b, dict):
                     c_ = dict(m_.elt.frags[0].b, func=type("F", (), {"qual": str(m_.elt.frags[0].a[1])})())
                 args_ = (c_ or {}).get("args") or []
-                ok = c_ is not None and getattr(c_.get("func"), "qual", "") == "_render_react_js" and len(args_) >= 3 and args_[0] is m_.var and args_[2] is eol
+                am_ = _argmap(ps, args_, (c_ or {}).get("kwargs"))
+                ok = c_ is not None and getattr(c_.get("func"), "qual", "") == "_render_react_js" and am_.get(ps[0]) is m_.var and am_.get(ps[2]) is eol
                 ctx.check(bool(ok), "C20.js", "each child is rendered once, in order, by a recursive call", where, f"children comprehension element {short(m_.elt)}",
                           "a child of a tag/component is not rendered exactly once by the recursive call: children are dropped, duplicated or cut short")
                 pk = m_.__dict__.get("pass_kinds")
@@ -513,6 +549,7 @@ def render_table(ctx: Ctx, I: Interp) -> None:
                 ctx.check(not leak, "C20.js", "metadata children are left out of the child expressions", where, f"kinds passing the filter include {leak}",
                           f"a metadata child of kind {leak} is kept in the list of child expressions: its empty rendering is joined in with a separator "
                           f"(a stray ', ' entry in React.createElement)", witness="Foo(MetadataNode(), 'a')")
+    found |= found_comp
     ctx.require(found == {"props", "children"}, f"_render_react_js loops found: {sorted(found)}")
     ctx.min_count("_render_react_js paths with props or children", n_loop_paths, 2)
 
